@@ -333,7 +333,7 @@ def npm_gte0(ast):
             for op, pa in item[1]:
                 M, m, p, pre = pa
                 zero = M == 0 and m in (0, -1) and p in (0, -1) and not (pre and p != -1)
-                if (op in (3, 6, 7) and zero) or M == -1:
+                if (op in (3, 6, 7) and zero) or (op in (0, 1) and zero and -1 in pa[:3]) or M == -1:
                     return True
     return False
 
@@ -371,7 +371,7 @@ def class_of(c, h, ev, impl_line):
             return "F-C03-6"
         if cand_pre and len(c["ast"]) > 1 and any(npm_anyish(item) for item in c["ast"]):
             return "F-C03-4"
-        if cand_pre and cand[:3] == [0, 0, 0] and any(op == 4 and pa[3] and pa[:3] == [0, 0, 0] for op, pa in parts):
+        if cand_pre and cand[:3] == [0, 0, 0] and any(op == 4 and pa[:3] == [0, 0, 0] for op, pa in parts):
             return "F-C03-13"
         if cand_pre and cand[:3] == [0, 0, 0] and npm_gte0(c["ast"]):
             return "F-C03-5"
